@@ -9,10 +9,12 @@ package main
 // the scanner's modes.  One Gallina `CPage` case per history (model: coq/model/C06_model.v).
 
 import (
+	"bytes"
 	"context"
 	"encoding/json"
 	"errors"
 	"fmt"
+	"io"
 	"io/ioutil"
 	"net/http"
 	"net/url"
@@ -119,6 +121,7 @@ func (s *c06Sim) RoundTrip(req *http.Request) (*http.Response, error) {
 	mk := func(code int, body string) (*http.Response, error) {
 		return &http.Response{StatusCode: code, Status: fmt.Sprintf("%d %s", code, http.StatusText(code)), Header: http.Header{"Content-Type": {"application/json"}}, Body: ioutil.NopCloser(strings.NewReader(body)), Request: req}, nil
 	}
+	cutMode := -1
 	if k == s.failAt {
 		s.faulted = true
 		switch s.failMode {
@@ -128,8 +131,14 @@ func (s *c06Sim) RoundTrip(req *http.Request) (*http.Response, error) {
 			return mk(200, `{"items":[{"uuid":"zzzzz-4zz18-0000000000`) // cut short
 		case 2:
 			return nil, errors.New("injected transport error")
-		default:
+		case 3:
 			return mk(503, `not json`)
+		case 4:
+			return mk(200, ``) // status 200, the body is cut before its first byte
+		case 7:
+			return mk(200, " \n") // nothing but white space arrived
+		default:
+			cutMode = s.failMode // 5: the real answer cut at some byte (clean EOF); 6: the body reader fails after some bytes
 		}
 	}
 	// filters
@@ -239,8 +248,21 @@ func (s *c06Sim) RoundTrip(req *http.Request) (*http.Response, error) {
 		resp["items_available"] = avail
 	}
 	b, _ := json.Marshal(resp)
+	if cutMode >= 0 {
+		// cut positions: 0, 1, somewhere in the middle, one byte short
+		at := []int{0, 1, len(b) / 2, len(b) - 1, int(uint(k*7919+len(b)*31) % uint(len(b)))}[(k+len(b))%5]
+		if cutMode == 5 {
+			return mk(200, string(b[:at]))
+		}
+		return &http.Response{StatusCode: 200, Status: "200 OK", Header: http.Header{"Content-Type": {"application/json"}},
+			Body: ioutil.NopCloser(io.MultiReader(bytes.NewReader(b[:at]), c06ErrReader{})), Request: req}, nil
+	}
 	return mk(200, string(b))
 }
+
+type c06ErrReader struct{}
+
+func (c06ErrReader) Read([]byte) (int, error) { return 0, errors.New("connection reset while reading the body") }
 
 var errC06Callback = errors.New("injected callback error")
 
@@ -367,15 +389,22 @@ func TestVerifC06Page(t *testing.T) {
 			}
 		}
 		// ---- faults ----
-		failAt, failMode, cbFail := -1, r.Intn(4), -1
+		// failure kinds: 0 HTTP 500, 1 JSON cut short, 2 transport error, 3 503 non-JSON, 4 status 200 with an empty body,
+		// 5 the real answer cut at byte 0 / 1 / middle / last, 6 the body reader fails after that many bytes, 7 white space only
+		failAt, failMode, cbFail := -1, []int{0, 1, 2, 3, 4, 4, 5, 6, 7, 4}[r.Intn(10)], -1
 		switch r.Intn(8) {
 		case 0:
 			failAt = r.Intn(nreqGuess + 2)
 		case 1:
 			cbFail = r.Intn(pop + 2)
 		}
-		if i%10 == 4 { // every request index of one small configuration gets its turn
+		switch i % 10 {
+		case 4: // every request index of small configurations gets its turn
 			failAt = (i / 10) % (nreqGuess + 2)
+		case 9: // ... also with a 200 answer whose body never arrives
+			failAt, failMode = (i/10)%(nreqGuess+2), 4
+		case 7: // ... or arrives in part
+			failAt, failMode = (i/10)%(nreqGuess+2), 5+(i/10)%3
 		}
 
 		sim := &c06Sim{table: map[int]int{}, clock: clock, events: events, failAt: failAt, failMode: failMode, t: t}
